@@ -19,7 +19,16 @@ Inductive Rep : pv -> list ritem -> Prop :=
 | Rep_comp vb vm va pre w1 n w2 kids a b c rest : Rep vb pre -> Rep vm kids -> Rep va rest ->
     Rep (PBloc [vb; PComp (s_comp_ ++ n) vm; va]) (pre ++ RComp w1 n w2 kids a b c :: rest)
 | Rep_ref vb va pre ns path rest : Rep vb pre -> Rep va rest ->
-    Rep (PBloc [vb; PForeign (option_map seg_name ns) (map seg_name path) []; va]) (pre ++ RRef ns path :: rest).
+    Rep (PBloc [vb; PForeign (option_map seg_name ns) (map seg_name path) []; va]) (pre ++ RRef ns path :: rest)
+  (* arguments: each string argument parsed again, kept in the parser's key-sorted map *)
+| Rep_refa vb va pre ns path args vs rest : Rep vb pre -> Rep va rest -> ArgVals vs args ->
+    Rep (PBloc [vb; PForeign (option_map seg_name ns) (map seg_name path) (sorted2 vs); va]) (pre ++ RRefA ns path args :: rest)
+with ArgVals : list (str * pv) -> list (str * rarg) -> Prop :=
+| AV_nil : ArgVals [] []
+| AV_str k v its vs args : Rep v (map a2r its) -> ArgVals vs args -> ArgVals ((k, v) :: vs) ((k, RAStr its) :: args)
+| AV_lit k l vs args : ArgVals vs args -> ArgVals ((k, PLit l) :: vs) ((k, RALit l) :: args).
+Scheme Rep_mind := Minimality for Rep Sort Prop
+  with ArgVals_mind := Minimality for ArgVals Sort Prop.
 
 Lemma all_rtext_denote l : forallb is_rtext l = true -> map rdenote l = map PcText (map rprint l).
 Proof.
@@ -36,38 +45,61 @@ Qed.
 
 Lemma Rep_pieces v l : Rep v l -> pc_norm (pieces_raw v) = rdenote_list l.
 Proof.
-  induction 1 as [l Ht|vb va pre w1 n w2 fm rest _ IHb _ IHa|vb vm va pre w1 n w2 kids a b c rest _ IHb _ IHm _ IHa
-                 |vb va pre ns path rest _ IHb _ IHa].
-  - cbn [pieces_raw lit_display]. unfold rdenote_list. rewrite (all_rtext_denote l Ht). rewrite pc_norm_texts. reflexivity.
-  - cbn [pieces_raw flat_map]. unfold rdenote_list. rewrite map_app. cbn [map rdenote].
+  revert v l.
+  apply (Rep_mind (fun v l => pc_norm (pieces_raw v) = rdenote_list l)
+                  (fun vs args => map (on_snd (fun v => pc_norm (pieces_raw v))) vs
+                                  = map (fun ka => (fst ka, darg (snd ka))) args)).
+  - intros l Ht. cbn [pieces_raw lit_display]. unfold rdenote_list. rewrite (all_rtext_denote l Ht). rewrite pc_norm_texts. reflexivity.
+  - intros vb va pre w1 n w2 fm rest _ IHb _ IHa.
+    cbn [pieces_raw flat_map]. unfold rdenote_list. rewrite map_app. cbn [map rdenote].
     apply pc_norm_congr; [exact IHb|].
     change (PcVar (s_var_ ++ n) (fmt_of fm) :: map rdenote rest) with ([PcVar (s_var_ ++ n) (fmt_of fm)] ++ map rdenote rest).
     apply pc_norm_congr; [reflexivity|]. rewrite app_nil_r. exact IHa.
-  - cbn [pieces_raw flat_map]. unfold rdenote_list. rewrite map_app. cbn [map rdenote].
+  - intros vb vm va pre w1 n w2 kids a b c rest _ IHb _ IHm _ IHa.
+    cbn [pieces_raw flat_map]. unfold rdenote_list. rewrite map_app. cbn [map rdenote].
     apply pc_norm_congr; [exact IHb|].
     change (PcComp (s_comp_ ++ n) (pc_norm (map rdenote kids)) :: map rdenote rest)
       with ([PcComp (s_comp_ ++ n) (pc_norm (map rdenote kids))] ++ map rdenote rest).
     apply pc_norm_congr.
     + rewrite IHm. reflexivity.
     + rewrite app_nil_r. exact IHa.
-  - cbn [pieces_raw flat_map map]. unfold rdenote_list. rewrite map_app. cbn [map rdenote].
+  - intros vb va pre ns path rest _ IHb _ IHa.
+    cbn [pieces_raw flat_map map]. unfold rdenote_list. rewrite map_app. cbn [map rdenote].
     apply pc_norm_congr; [exact IHb|].
     change (PcForeign (option_map seg_name ns) (map seg_name path) [] :: map rdenote rest)
       with ([PcForeign (option_map seg_name ns) (map seg_name path) []] ++ map rdenote rest).
     apply pc_norm_congr; [reflexivity|]. rewrite app_nil_r. exact IHa.
+  - intros vb va pre ns path args vs rest _ IHb _ IHa _ IHargs.
+    cbn [pieces_raw flat_map]. unfold rdenote_list. rewrite map_app. cbn [map rdenote].
+    apply pc_norm_congr; [exact IHb|].
+    match goal with |- pc_norm (?x ++ _) = pc_norm (?y :: ?r) => change (y :: r) with ([y] ++ r) end.
+    apply pc_norm_congr; [|rewrite app_nil_r; exact IHa].
+    f_equal. f_equal. f_equal. rewrite <- IHargs, <- sorted2_map. apply map_ext. intros [k a]. reflexivity.
+  - reflexivity.
+  - intros k v its vs args _ IHv _ IHr. cbn [map fst snd]. rewrite IHr. f_equal. unfold on_snd. cbn [fst snd darg]. f_equal.
+    rewrite IHv. apply rdenote_list_a2r.
+  - intros k l vs args _ IHr. cbn [map fst snd]. rewrite IHr. reflexivity.
 Qed.
 
 Lemma Rep_no_foreign v l : Rep v l -> no_foreign v = negb (has_ref_list l).
 Proof.
-  induction 1 as [l Ht|vb va pre w1 n w2 fm rest _ IHb _ IHa|vb vm va pre w1 n w2 kids a b c rest _ IHb _ IHm _ IHa
-                 |vb va pre ns path rest _ IHb _ IHa].
-  - rewrite (all_rtext_no_ref l Ht). reflexivity.
-  - cbn [no_foreign forallb]. unfold has_ref_list in *. rewrite existsb_app. cbn [existsb has_ref].
+  revert v l.
+  apply (Rep_mind (fun v l => no_foreign v = negb (has_ref_list l)) (fun _ _ => True)); try exact I.
+  - intros l Ht. rewrite (all_rtext_no_ref l Ht). reflexivity.
+  - intros vb va pre w1 n w2 fm rest _ IHb _ IHa.
+    cbn [no_foreign forallb]. unfold has_ref_list in *. rewrite existsb_app. cbn [existsb has_ref].
     rewrite IHb, IHa. destruct (existsb has_ref pre), (existsb has_ref rest); reflexivity.
-  - cbn [no_foreign forallb]. unfold has_ref_list in *. rewrite existsb_app. cbn [existsb has_ref].
+  - intros vb vm va pre w1 n w2 kids a b c rest _ IHb _ IHm _ IHa.
+    cbn [no_foreign forallb]. unfold has_ref_list in *. rewrite existsb_app. cbn [existsb has_ref].
     rewrite IHb, IHa, IHm. destruct (existsb has_ref pre), (existsb has_ref rest), (existsb has_ref kids); reflexivity.
-  - cbn [no_foreign forallb]. unfold has_ref_list in *. rewrite existsb_app. cbn [existsb has_ref].
+  - intros vb va pre ns path rest _ IHb _ IHa.
+    cbn [no_foreign forallb]. unfold has_ref_list in *. rewrite existsb_app. cbn [existsb has_ref].
     rewrite IHb. destruct (existsb has_ref pre); reflexivity.
+  - intros vb va pre ns path args vs rest _ IHb _ IHa _ _.
+    cbn [no_foreign forallb]. unfold has_ref_list in *. rewrite existsb_app. cbn [existsb has_ref].
+    rewrite IHb. destruct (existsb has_ref pre); reflexivity.
+  - intros. exact I.
+  - intros. exact I.
 Qed.
 
 Lemma rprint_ref_split pre ns path rest :
@@ -103,34 +135,121 @@ Proof.
   destruct x; try discriminate; reflexivity.
 Qed.
 
+(** references with arguments anywhere (inside components too) *)
+Fixpoint has_refa (i : ritem) : bool :=
+  match i with
+  | RComp _ _ _ kids _ _ _ => existsb has_refa kids
+  | RRefA _ _ _ => true
+  | _ => false
+  end.
+Definition has_refa_list (l : list ritem) : bool := existsb has_refa l.
+Lemma has_refa_split a y b : has_refa_list (a ++ y :: b) = false ->
+  has_refa_list a = false /\ has_refa y = false /\ has_refa_list b = false.
+Proof.
+  unfold has_refa_list. rewrite existsb_app. cbn [existsb]. intros H.
+  apply orb_false_iff in H as [H1 H2]. apply orb_false_iff in H2 as [H2 H3]. auto.
+Qed.
+Lemma has_refa_a2r1 : forall a, has_refa (a2r a) = false.
+Proof.
+  apply aitem_ind2; try reflexivity.
+  intros w1 n w2 kids a b c IH. cbn [a2r has_refa]. induction IH as [|k r Hk Hr IHr]; [reflexivity|].
+  cbn [map existsb]. rewrite Hk, IHr. reflexivity.
+Qed.
+Lemma has_refa_a2r l : has_refa_list (map a2r l) = false.
+Proof. induction l as [|a r IH]; [reflexivity|]. cbn [map]. unfold has_refa_list in *. cbn [existsb]. rewrite IH, has_refa_a2r1. reflexivity. Qed.
+
+Lemma member_len x : (length (snd x) <= length (member_text x))%nat.
+Proof. unfold member_text. repeat (rewrite ?app_length; cbn [length]). slia. Qed.
+Lemma negb_cr_tvr (l : list ritem) : forallb (fun x => negb (is_rcr x)) l = true -> forallb is_tvr l = true.
+Proof.
+  intros H. rewrite forallb_forall in H |- *. intros x Hx. specialize (H x Hx). destruct x; try discriminate; reflexivity.
+Qed.
+Lemma members_len_in x l : In x l -> (length (snd x) <= length (members_text l))%nat.
+Proof.
+  induction l as [|y r IH]; intros H; [destruct H|]. cbn [members_text].
+  destruct H as [->|H].
+  - pose proof (member_len x). destruct r; [assumption|]. rewrite app_length. slia.
+  - specialize (IH H). destruct r as [|z r']; [destruct H|]. rewrite app_length. cbn [length]. slia.
+Qed.
+Lemma arg_len_in k its args : In (k, RAStr its) args -> (length (aprint_list its) <= length (members_text (args_text args)))%nat.
+Proof.
+  intros H. assert (Hin : In (k, value_text (RAStr its)) (args_text args)).
+  { unfold args_text. apply in_map_iff. exists (k, RAStr its). auto. }
+  pose proof (members_len_in _ _ Hin) as Hl. cbn [snd value_text] in Hl. cbn [length] in Hl. rewrite app_length in Hl. slia.
+Qed.
+
 Section RT.
 Variable idc : str -> idres.
 Variable json_args : str -> res (list (str * jarg)).
 Notation ritem_wfb := (ritem_wfb idc).
 Notation ritems_wfb := (ritems_wfb idc).
 
+(** a reference first: no component opens before it, the component-first test is false *)
+Lemma comp_first_ref pre y rest tail :
+  ritems_wfb (pre ++ y :: rest) = true -> forallb (fun x => negb (is_rcr x)) pre = true ->
+  rprint y = s_fk ++ tail ->
+  comp_first idc true (rprint_list (pre ++ y :: rest)) = Ok false.
+Proof.
+  intros Hwf Hpre Ey.
+  destruct (ritems_wfb_split idc _ _ _ Hwf) as (Wpre & Wy & Wrest).
+  pose proof (negb_cr_tvr pre Hpre) as Hpre_t.
+  pose proof (rtv_no_dollar idc pre Wpre Hpre) as Hpre_nd.
+  pose proof (rnoncomps_no_lt idc pre Wpre Hpre_t) as Hpre_lt.
+  unfold comp_first.
+  assert (Es : split_once s_fk (rprint_list (pre ++ y :: rest)) = Some (rprint_list pre, tail ++ rprint_list rest)).
+  { rewrite rprint_list_app, rprint_list_cons, Ey, <- app_assoc. change s_fk with (c_dollar :: [c_t; c_lp]).
+    apply split_once_first_pat. exact Hpre_nd. }
+  rewrite Es.
+  assert (Wyr : ritems_wfb (y :: rest) = true).
+  { unfold RoundTripRef1.ritems_wfb. cbn [forallb]. rewrite Wy. exact Wrest. }
+  destruct (rconvs_wf idc (y :: rest) Wyr) as [W T].
+  rewrite rprint_list_app, <- (flats_rconv_items (y :: rest)).
+  destruct (fvc_tokens idc (rconvs (y :: rest)) (rprint_list pre) (length (rprint_list pre ++ flats (toks_list (rconvs (y :: rest))))) Hpre_lt W T)
+    as [E|(k & x & bb & aa & E)]; rewrite E; cbn [bind]; [reflexivity|].
+  f_equal. apply Nat.ltb_ge. rewrite blen_app. lia.
+Qed.
+
+Lemma argvals_of (new : str -> res pv) args :
+  (forall k its, In (k, RAStr its) args -> exists v, new (aprint_list its) = Ok v /\ Rep v (map a2r its)) ->
+  ArgVals (map (on_snd (aval new)) args) args.
+Proof.
+  induction args as [|[k a] r IH]; intros H; [constructor|].
+  cbn [map]. unfold on_snd at 1. cbn [fst snd]. destruct a as [its|l]; cbn [aval].
+  - destruct (H k its (or_introl eq_refl)) as (v & Ev & Rv). unfold vnew. rewrite Ev.
+    constructor; [exact Rv|]. apply IH. intros k' its' Hi. apply (H k' its'). right. exact Hi.
+  - constructor. apply IH. intros k' its' Hi. apply (H k' its'). right. exact Hi.
+Qed.
+
+(** the round trip; the JSON oracle only matters when a reference carries arguments *)
 Theorem roundtrip_ref : forall fuel items,
+  (has_refa_list items = false \/ json_ok idc json_args) ->
   (length (rprint_list items) < fuel)%nat -> ritems_wfb items = true ->
   exists v, parse idc json_args true fuel (rprint_list items) = Ok v /\ Rep v items.
 Proof.
-  induction fuel as [|fuel IH]; intros items Hlen Hwf; [slia|].
+  induction fuel as [|fuel IH]; intros items Hj Hlen Hwf; [slia|].
   cbn [parse]. unfold parse_step.
   destruct (gsplit_first is_rcr items) as [[[pre y] rest]|] eqn:Ecr.
   - (* a first component or reference; only text and variables before it *)
     destruct (gsplit_first_some _ _ _ _ _ Ecr) as (Eit & Hy & Hpre). subst items.
     destruct (ritems_wfb_split idc _ _ _ Hwf) as (Wpre & Wy & Wrest).
-    pose proof (negb_cr_comp pre Hpre) as Hpre_nc.
+    pose proof (negb_cr_tvr pre Hpre) as Hpre_nc.
     pose proof (rtv_no_dollar idc pre Wpre Hpre) as Hpre_nd.
-    destruct y as [|?|w1 n w2 kids a b c|ns path]; try discriminate.
+    assert (Jpre : has_refa_list pre = false \/ json_ok idc json_args).
+    { destruct Hj as [Hj|Hj]; [left; apply (has_refa_split _ _ _ Hj) | right; exact Hj]. }
+    assert (Jrest : has_refa_list rest = false \/ json_ok idc json_args).
+    { destruct Hj as [Hj|Hj]; [left; apply (has_refa_split _ _ _ Hj) | right; exact Hj]. }
+    destruct y as [|?|w1 n w2 kids a b c|ns path|ns path args]; try discriminate.
     + (* component first: it is parsed first, whether or not a reference follows or is inside *)
       assert (Wkids : ritems_wfb kids = true).
       { cbn [RoundTripRef1.ritem_wfb] in Wy. apply andb_true_iff in Wy as [_ Wk]. exact Wk. }
+      assert (Jkids : has_refa_list kids = false \/ json_ok idc json_args).
+      { destruct Hj as [Hj|Hj]; [left; apply (has_refa_split _ _ _ Hj) | right; exact Hj]. }
       assert (Elen : (length (rprint_list pre) + length (rprint_list kids) + length (rprint_list rest) + 2
                       <= length (rprint_list (pre ++ RComp w1 n w2 kids a b c :: rest)))%nat).
       { rewrite rprint_comp_split. repeat (rewrite app_length; cbn [length]). slia. }
-      destruct (IH pre ltac:(slia) Wpre) as (vb & Eb & Rb).
-      destruct (IH kids ltac:(slia) Wkids) as (vm & Em & Rm).
-      destruct (IH rest ltac:(slia) Wrest) as (va & Ea & Ra).
+      destruct (IH pre Jpre ltac:(slia) Wpre) as (vb & Eb & Rb).
+      destruct (IH kids Jkids ltac:(slia) Wkids) as (vm & Em & Rm).
+      destruct (IH rest Jrest ltac:(slia) Wrest) as (va & Ea & Ra).
       assert (Hres : find_component idc true (parse idc json_args true fuel) (rprint_list (pre ++ RComp w1 n w2 kids a b c :: rest))
                      = Ok (Some (PBloc [vb; PComp (s_comp_ ++ n) vm; va]))).
       { rewrite (find_component_rprinted idc _ pre w1 n w2 kids a b c rest Wpre Hpre_nc Wy Wrest).
@@ -147,41 +266,46 @@ Proof.
         eexists. split; [reflexivity|]. apply Rep_comp; assumption.
       * cbn [bind]. unfold parse_chain, find_foreign_key. rewrite Efk. cbn [bind]. rewrite Hres. cbn [bind].
         eexists. split; [reflexivity|]. apply Rep_comp; assumption.
-    + (* reference first: no component opens before it *)
-      assert (Hcf : comp_first idc true (rprint_list (pre ++ RRef ns path :: rest)) = Ok false).
-      { unfold comp_first.
-        assert (Es : split_once s_fk (rprint_list (pre ++ RRef ns path :: rest))
-                     = Some (rprint_list pre, keypath_text ns path ++ c_rp :: rprint_list rest)).
-        { rewrite rprint_ref_split. change s_fk with (c_dollar :: [c_t; c_lp]). apply split_once_first_pat. exact Hpre_nd. }
-        rewrite Es.
-        destruct (gsplit_first is_rcomp rest) as [[[r1 y2] r2]|] eqn:Ec.
-        - destruct (gsplit_first_some _ _ _ _ _ Ec) as (Er & Hy2 & Hr1). subst rest.
-          destruct y2 as [| |w1' n' w2' kids' a' b' c'|]; try discriminate.
-          destruct (ritems_wfb_split idc _ _ _ Wrest) as (Wr1 & Wy2 & Wr2).
-          replace (pre ++ RRef ns path :: r1 ++ RComp w1' n' w2' kids' a' b' c' :: r2)
-            with ((pre ++ RRef ns path :: r1) ++ RComp w1' n' w2' kids' a' b' c' :: r2)
-            by (rewrite <- app_assoc; reflexivity).
-          rewrite (find_valid_component_rprinted idc (pre ++ RRef ns path :: r1) w1' n' w2' kids' a' b' c' r2).
-          + cbn [bind]. f_equal. apply Nat.ltb_ge. rewrite rprint_list_app, blen_app. lia.
-          + apply ritems_wfb_app; [exact Wpre|]. unfold RoundTripRef1.ritems_wfb. cbn [forallb]. rewrite Wy. exact Wr1.
-          + rewrite forallb_app. cbn [forallb]. rewrite Hpre_nc, Hr1. reflexivity.
-          + exact Wy2.
-          + exact Wr2.
-        - pose proof (gsplit_first_none _ _ Ec) as Hnc.
-          rewrite find_valid_component_none; [reflexivity|].
-          apply (rnoncomps_no_lt idc); [exact Hwf|]. rewrite forallb_app. cbn [forallb]. rewrite Hpre_nc, Hnc. reflexivity. }
-      rewrite Hcf. cbn [bind]. unfold parse_chain.
+    + (* reference first *)
+      rewrite (comp_first_ref pre (RRef ns path) rest (keypath_text ns path ++ [c_rp]) Hwf Hpre eq_refl).
+      cbn [bind]. unfold parse_chain.
       rewrite (find_foreign_key_printed idc json_args _ pre ns path rest Hpre_nd Wy).
       assert (Elen : (length (rprint_list pre) + length (rprint_list rest) + 3
                       <= length (rprint_list (pre ++ RRef ns path :: rest)))%nat).
       { rewrite rprint_ref_split. unfold s_fk. repeat (rewrite app_length; cbn [length]). slia. }
-      destruct (IH pre ltac:(slia) Wpre) as (vb & Eb & Rb).
-      destruct (IH rest ltac:(slia) Wrest) as (va & Ea & Ra).
+      destruct (IH pre Jpre ltac:(slia) Wpre) as (vb & Eb & Rb).
+      destruct (IH rest Jrest ltac:(slia) Wrest) as (va & Ea & Ra).
       rewrite Eb, Ea. cbn [bind].
       eexists. split; [reflexivity|]. apply Rep_ref; assumption.
+    + (* reference with arguments first *)
+      assert (Hjson : json_ok idc json_args).
+      { destruct Hj as [Hj|Hj]; [|exact Hj]. destruct (has_refa_split _ _ _ Hj) as (_ & Hy' & _). discriminate. }
+      rewrite (comp_first_ref pre (RRefA ns path args) rest
+                 (keypath_text ns path ++ c_comma :: 32 :: obj_text (args_text args) ++ [c_rp]) Hwf Hpre eq_refl).
+      cbn [bind]. unfold parse_chain.
+      assert (Elen : (length (rprint_list pre) + length (rprint_list rest) + length (members_text (args_text args)) + 3
+                      <= length (rprint_list (pre ++ RRefA ns path args :: rest)))%nat).
+      { rewrite rprint_refa_split. unfold s_fk, obj_text. repeat (rewrite app_length; cbn [length]). slia. }
+      pose proof Wy as Wy0. cbn [RoundTripRef1.ritem_wfb] in Wy. apply andb_true_iff in Wy as [Wkp Wargs].
+      destruct (args_wf_parts idc args Wargs) as (_ & _ & Wall).
+      assert (Hargs : forall k its, In (k, RAStr its) args ->
+                exists v, parse idc json_args true fuel (aprint_list its) = Ok v /\ Rep v (map a2r its)).
+      { intros k its Hka. rewrite forallb_forall in Wall. destruct (arg_wf_parts idc _ (Wall _ Hka)) as (_ & Wv).
+        cbn [snd rarg_wfb] in Wv. apply andb_true_iff in Wv as [Wi _].
+        rewrite <- rprint_list_a2r. apply IH.
+        - left. apply has_refa_a2r.
+        - rewrite rprint_list_a2r. pose proof (arg_len_in k its args Hka) as Hl. slia.
+        - apply aitems_wfb_a2r. exact Wi. }
+      rewrite (find_foreign_key_args_printed idc json_args _ pre ns path args rest Hjson Hpre_nd Wy0).
+      2:{ intros k its Hka. destruct (Hargs k its Hka) as (v & Ev & _). exists v. exact Ev. }
+      destruct (IH pre Jpre ltac:(slia) Wpre) as (vb & Eb & Rb).
+      destruct (IH rest Jrest ltac:(slia) Wrest) as (va & Ea & Ra).
+      rewrite Eb, Ea. cbn [bind].
+      eexists. split; [reflexivity|]. unfold pargs_of. apply Rep_refa; [assumption | assumption|].
+      apply argvals_of. exact Hargs.
   - (* neither a component nor a reference: the printed source holds no '$' and no '<' *)
     pose proof (gsplit_first_none _ _ Ecr) as Hncr.
-    pose proof (negb_cr_comp items Hncr) as Hnc.
+    pose proof (negb_cr_tvr items Hncr) as Hnc.
     pose proof (rtv_no_dollar idc items Hwf Hncr) as Hnd.
     assert (Hcf : comp_first idc true (rprint_list items) = Ok false).
     { unfold comp_first. change s_fk with (c_dollar :: [c_t; c_lp]). rewrite split_once_no_char by exact Hnd. reflexivity. }
@@ -195,8 +319,12 @@ Proof.
     destruct (gsplit_first is_rvar items) as [[[pre y] rest]|] eqn:Esv.
     + (* a first variable: only text before it *)
       destruct (gsplit_first_some _ _ _ _ _ Esv) as (Eit & Hy & Hpre).
-      destruct y as [|w1 n w2 fm| |]; try discriminate. subst items.
+      destruct y as [|w1 n w2 fm| | |]; try discriminate. subst items.
       destruct (ritems_wfb_split idc _ _ _ Hwf) as (Wpre & Wy & Wrest).
+      assert (Jpre : has_refa_list pre = false \/ json_ok idc json_args).
+      { destruct Hj as [Hj|Hj]; [left; apply (has_refa_split _ _ _ Hj) | right; exact Hj]. }
+      assert (Jrest : has_refa_list rest = false \/ json_ok idc json_args).
+      { destruct Hj as [Hj|Hj]; [left; apply (has_refa_split _ _ _ Hj) | right; exact Hj]. }
       assert (Hpt : forallb is_rtext pre = true).
       { apply all_text_of; [|exact Hpre]. rewrite forallb_app in Hncr. apply andb_true_iff in Hncr as [H _]. exact H. }
       rewrite rprint_var_split.
@@ -209,8 +337,8 @@ Proof.
       assert (Elen : (length (rprint_list pre) + 2 + length (rprint_list rest)
                       <= length (rprint_list (pre ++ RVar w1 n w2 fm :: rest)))%nat).
       { rewrite rprint_list_app, rprint_list_cons. cbn [rprint print]. unfold s_open_var. repeat (rewrite app_length; cbn [length]). slia. }
-      destruct (IH pre ltac:(slia) Wpre) as (vb & Eb & Rb).
-      destruct (IH rest ltac:(slia) Wrest) as (va & Ea & Ra).
+      destruct (IH pre Jpre ltac:(slia) Wpre) as (vb & Eb & Rb).
+      destruct (IH rest Jrest ltac:(slia) Wrest) as (va & Ea & Ra).
       rewrite Eb, Ea. cbn [bind].
       eexists. split; [reflexivity|]. apply Rep_var; assumption.
     + (* only text *)
@@ -225,15 +353,15 @@ Proof.
 Qed.
 
 (** with the top-level fuel of ParsedValue::new *)
-Corollary roundtrip_ref_top items : ritems_wfb items = true ->
+Corollary roundtrip_ref_top items : (has_refa_list items = false \/ json_ok idc json_args) -> ritems_wfb items = true ->
   exists v, parse_top idc json_args true (rprint_list items) = Ok v /\ Rep v items.
-Proof. intros H. unfold parse_top. apply roundtrip_ref; [slia | exact H]. Qed.
+Proof. intros Hj H. unfold parse_top. apply roundtrip_ref; [exact Hj | slia | exact H]. Qed.
 
-Corollary roundtrip_ref_pieces items : ritems_wfb items = true ->
+Corollary roundtrip_ref_pieces items : (has_refa_list items = false \/ json_ok idc json_args) -> ritems_wfb items = true ->
   exists v, parse_top idc json_args true (rprint_list items) = Ok v
             /\ pieces v = rdenote_list items /\ no_foreign v = negb (has_ref_list items).
 Proof.
-  intros H. destruct (roundtrip_ref_top items H) as (v & E & R). exists v.
+  intros Hj H. destruct (roundtrip_ref_top items Hj H) as (v & E & R). exists v.
   split; [exact E|]. split; [apply Rep_pieces; exact R | apply Rep_no_foreign; exact R].
 Qed.
 End RT.
